@@ -4,6 +4,8 @@ R-ALIGN.term   the address a bump stack hands out is  X + align_offset(X, alignm
                the offset is computed from the cursor that is actually bumped (also after the stack switched to a new block)
 R-ALIGN.pool   pools reject alignments above what their nodes guarantee (throwing: bad_alignment check before allocating;
                composable: null on the same comparison); the collection reserves with max_alignment and aligns block remainders to it
+R-ALIGN.insert memory the pools give to a free list is a block start, a max-aligned stack allocation, or X + align_offset(X, max_alignment)
+               for one and the same X (cursor helpers inlined)
 R-RUN          the array search returns a run only after an accumulator that grows by the node size on the contiguous branch and is
                reset on a gap reached the requested byte count; callers pass (bytes, node size) in that order
 R-BOUND        the size bytes behind the returned address are inside the region: shared bound rule of C01 (advance == checked amount,
@@ -122,6 +124,77 @@ def check_pool_alignment(run, db):
     return n
 
 
+def _call_args(cs, name):
+    i = cs.rfind('.%s(' % name)
+    if i < 0:
+        return []
+    body = cs[i + len(name) + 2:-1]
+    out, depth, cur = [], 0, ''
+    for ch in body:
+        if ch in '([{':
+            depth += 1
+        elif ch in ')]}':
+            depth -= 1
+        if ch == ',' and depth == 0:
+            out.append(cur)
+            cur = ''
+        else:
+            cur += ch
+    out.append(cur)
+    return out
+
+
+def check_insert_alignment(run, db):
+    """memory given to a free list by the pools is aligned for max_alignment: it is the start of an arena block, the result of a
+    stack allocation with max_alignment, or X + align_offset(X, max_alignment) for one and the same X - the cursor as it is when the
+    memory is taken, with the helpers of the fixed stack inlined (an offset computed after the cursor moved is reported)"""
+    n = 0
+    for f in db.fns.values():
+        if f.pattern or cls_template(f.cls) not in ('memory_pool', 'memory_pool_collection'):
+            continue
+        if not any(t.get('short') == 'insert' and 'free_memory_list' in t.get('cls', '') for e, t in flow.call_events(f)):
+            continue
+        try:
+            S = fwd.summarize(f, db=db, roles={}, inline_pred=c01.inline_cursor, no_forward=True)
+        except sym.PathLimit as e:
+            run.broke(str(e))
+            continue
+        n += 1
+        probs, unrec, good = [], [], 0
+        for s in S:
+            for c in s.calls:
+                if c[1].get('short') != 'insert' or 'free_memory_list' not in c[1].get('cls', ''):
+                    continue
+                a = _call_args(c[0], 'insert')
+                if not a:
+                    continue
+                p0 = a[0]
+                m = re.match(r'^\((.+) \+ align_offset\((.+),g:detail::max_alignment\)\)$', p0) or re.match(r'^\(align_offset\((.+),g:detail::max_alignment\) \+ (.+)\)$', p0)
+                if m:
+                    x, y = m.group(1), m.group(2)
+                    if x == y:
+                        good += 1
+                    else:
+                        probs.append('inserts %s: the alignment offset is computed for a different address than the one it is added to (the cursor moved in between)' % p0[:150])
+                elif p0.endswith('.memory') and ('allocate_block()' in p0 or 'reserve_memory(' in p0):
+                    good += 1
+                elif re.search(r'\.allocate\(.*g:detail::max_alignment', p0) or p0 == 'null':
+                    good += 1
+                elif 'align_offset' in p0:
+                    probs.append('inserts %s, which is not <address> + align_offset(<address>, max_alignment)' % p0[:150])
+                else:
+                    unrec.append(p0[:120])
+        inst = '%s [%s]' % (f.display, db.config)
+        site = {'function': '%s::%s' % (cls_template(f.cls), f.short), 'role': 'memory given to the free list is max-aligned'}
+        if probs:
+            run.violation('R-ALIGN.insert', inst, f.loc, '; '.join(sorted(set(probs))[:2]), site=site)
+        elif unrec:
+            run.broke('%s gives %s to a free list: origin not recognised by R-ALIGN.insert' % (f.display, unrec[0]))
+        elif good:
+            run.ok('R-ALIGN.insert', inst, f.loc, '%d insertion(s): block start / max-aligned stack allocation / X + align_offset(X, max_alignment)' % good)
+    return n
+
+
 def check_run(run, db):
     n = 0
     for f in db.fns.values():
@@ -211,6 +284,7 @@ def check_aligned_allocator(run, db):
 def run(run):
     run.rule('R-ALIGN.term', 'returned address = X + align_offset(X, alignment) for the bumped cursor', floor=6)
     run.rule('R-ALIGN.pool', 'pools reject larger alignments; collection uses max_alignment', floor=10)
+    run.rule('R-ALIGN.insert', 'memory the pools give to a free list is aligned for max_alignment', floor=8)
     run.rule('R-RUN', 'array search returns only runs covering the requested bytes', floor=2)
     run.rule('R-FWD', 'aligned_allocator never lowers the alignment', floor=8)
     run.rule('R-BOUND', 'size bytes behind the returned address lie inside the region (shared with C01)', floor=10)
@@ -222,6 +296,8 @@ def run(run):
             run.broke('bump allocation functions not found [%s]' % cfg)
         if check_pool_alignment(run, db) < 8:
             run.broke('pool traits not found [%s]' % cfg)
+        if check_insert_alignment(run, db) < 4:
+            run.broke('free list insertions of the pools not found [%s]' % cfg)
         if check_run(run, db) < 2:
             run.broke('array search functions not found [%s]' % cfg)
         if c01.check_bound(run, db) < 8:
